@@ -143,8 +143,9 @@ int main(void) {
     case 'N': {
       char *l = strtok_r(NULL, " ", &save);
       if (l[0] == '-') {
+        /* "-" or "-<len>": library-managed buffer; the length argument is documented as irrelevant then */
         raw[id] = NULL; blen[id] = 0;
-        inst[id] = asm_create_instance(NULL, 0);
+        inst[id] = asm_create_instance(NULL, atoi(l + 1));
       } else {
         int len = atoi(l);
         int fill = (int)strtol(strtok_r(NULL, " ", &save), NULL, 16);
